@@ -147,6 +147,61 @@ def handle (op : String) (j : Json) : Except String Json := do
     let m := Base.omap (extractRow isz arrays.flatten stranded) (maskData ign ivs)
     let s := (specMask ign ivs).map (specExtractRow arrays stranded)
     pure (reply (optJ f m) (some (f s)))
+  | "trackviews" =>
+    let ivs ← getIvs j
+    let vals ← getNatListList j "vals"
+    let pts ← getPairs j "pts"
+    let arrays := ((vals.zip ign).filter (fun y => !y.2)).map (·.1)
+    let dense := arrays.flatten
+    let mk := fun (chrom : List (List Nat)) (at_ bool_ : List Nat) =>
+      Json.mkObj [("chrom", natListList chrom), ("data", natListList chrom), ("at", natList at_), ("bool", natList bool_),
+        ("npsum", nat dense.sum), ("rt", natListList chrom)]
+    let m := match Base.omap (fun (x : Nat × Int) => extractAt isz dense (encodeIdx ign x.1) x.2.toNat) pts,
+                   maskGlobal isz (maskData ign ivs) with
+      | some a, some mask => some (mk (toDict isz dense) a (boolIndex dense mask))
+      | _, _ => none
+    let sp := specMask ign ivs
+    let sAt := pts.map (fun x => (vals.getD x.1 []).getD x.2.toNat 0)
+    let sBool := ((List.range n).map (fun c => boolIndex (arrays.getD c []) (specMaskChrom isz sp c))).flatten
+    pure (reply (optJ id m) (some (mk arrays sAt sBool)))
+  | "binned" =>
+    let pts ← getPairs j "pts"
+    let b ← getNat j "bin"
+    let f := fun (d : List (List Nat)) => Json.mkObj [("dict", natListList d), ("get", natListList d)]
+    let p' := pts.map (fun x => (encodeIdx ign x.1, x.2.toNat))
+    let ps := pts.map (fun x => (rankOf ign x.1, x.2.toNat))
+    pure (reply (f (binnedCounts b isz p')) (some (f (specBinned b isz ps))))
+  | "maploc" =>
+    let ivs ← getIvs j
+    let pts ← getPairs j "pts"
+    let f := fun (l : List (Nat × Int)) => Json.mkObj [("map", intListList (l.map (fun x => [(x.1 : Int), x.2])))]
+    let p' := pts.map (fun x => (encodeIdx ign x.1, x.2.toNat))
+    let ps := pts.map (fun x => (rankOf ign x.1, x.2.toNat))
+    pure (reply (optJ f (mapLocs false isz (maskData ign ivs) p')) (some (f (specMapLocs (specMask ign ivs) ps))))
+  | "gjaccard" =>
+    let sets ← (← getArr j "sets").mapM (fun v => do (← v.getArr?).toList.mapM parseIv)
+    let masks := Base.omap (fun s => maskGlobal isz (maskData ign s)) sets
+    let cnt := fun (a b : List Nat) => natList [interCount a b, unionCount a b]
+    let m := masks.map (fun ms => Json.mkObj [("pair", cnt (ms.getD 0 []) (ms.getD 1 [])),
+      ("all", Json.arr (ms.map (fun a => Json.arr (ms.map (fun b => cnt a b)).toArray)).toArray)])
+    pure (reply (optJ id m) none)
+  | "locsort" =>
+    let pts ← getPairs j "pts"
+    let f := fun (a b : List (Nat × Nat)) => Json.mkObj [("sorted", natListList (a.map (fun x => [x.1, x.2]))),
+      ("rev", natListList (b.map (fun x => [x.1, x.2])))]
+    let p' := pts.map (fun x => (encodeIdx ign x.1, x.2.toNat))
+    let ps := pts.map (fun x => (rankOf ign x.1, x.2.toNat))
+    let ins := insSorted (ps.map (fun x => [x.1, x.2]))
+    pure (reply (f (sortLocs p') p'.reverse)
+      (some (Json.mkObj [("sorted", natListList ins), ("rev", natListList (ps.reverse.map (fun x => [x.1, x.2])))])))
+  | "fromtrack" =>
+    let ivs ← getIvs j
+    let f := fun (chroms : List (List Nat)) =>
+      let runs := (chroms.zipIdx.map (fun cd => (onesRuns cd.1).map (fun r => [cd.2, r.1, r.2]))).flatten
+      Json.mkObj [("runs", natListList runs), ("n", nat runs.length)]
+    let m := (maskGlobal isz (maskData ign ivs)).map (fun d => f (toDict isz d))
+    let sp := specMask ign ivs
+    pure (reply (optJ id m) (some (f ((List.range n).map (specMaskChrom isz sp)))))
   | _ => throw s!"C10: unknown op {op}"
 
 end Drv.C10
